@@ -3,6 +3,7 @@ package main
 import (
 	"encoding/json"
 	"fmt"
+	"math/big"
 	"math/rand"
 	"regexp"
 	"strings"
@@ -47,14 +48,14 @@ var c10Alphabet = []rune{'/', '~', '0', '1', 'a', 'b', 'é', '𝄞'}
 
 func init() {
 	register(&Prop{ID: "C10", Run: c10Run,
-		Rule: "toks: every token list over {'/','~','0','1','a','b','é','𝄞'} incl. empty tokens with (#tokens + #runes) <= 5 (quick) / 7 (thorough), plus random longer lists over a wider rune pool; " +
+		Rule: "toks: every token list over {'/','~','0','1','a','b','é','𝄞'} incl. empty tokens with (#tokens + #runes) <= 5 (quick) / 7 (thorough), plus random longer lists over a wider rune pool (white space incl. NBSP and line breaks, syntax look-alikes, supplementary-plane characters, the boundary code points of the UTF-8 length classes, U+FFFD, NUL, a combining mark); " +
 			"str: every string over the same alphabet up to length 4/6 (valid or not), every RFC 6901 grammar string up to length 6/8, random longer ones; " +
-			"eval: generated documents (member names include '0','1','10','a/b','~','é') with pointers drawn from existing locations, their neighbours (other member, index one past / far past), " +
+			"eval: generated documents (member names include '0','1','10','a/b','~','é') with pointers drawn from existing locations, their neighbours (other member, index one past / far past, canonical numerals of 10-65 digits around 2^31, 2^32, 2^63, 2^64, 2^65, 2^128, 10^19, 10^20 and 10^64), " +
 			"non-existent ones and a malformed stream (non-numeric, negative, empty tokens against lists; tokens below leaves); evalhist: such a document is given a history of 1-6 in-place edits " +
 			"(AddValue / Remove / AddContainer / AddList / Set / MustSet / Append / Clear through nested builders, Lookup or the root's path API, consecutive edits differing in operation or route), and before every edit and at the end a fixed set of pointers " +
 			"(locations of every intermediate content and their neighbours) plus every location of the current content is evaluated; prop: dotted property paths with index groups through xform.PointerFromPropPathString. " +
 			"Non-trivial: toks/str cases containing '~' or '/' inside a token or an empty token or a multi-byte rune; eval cases whose pointer has >= 2 tokens or meets a list. distinct = distinct canonical case JSON.",
-		Assumptions: []string{"strings are valid UTF-8 (Go's []rune conversion maps invalid bytes to U+FFFD; not generated)",
+		Assumptions: []string{"strings are valid UTF-8 (Go's []rune conversion maps invalid bytes to U+FFFD; malformed input is not generated, the well-formed character U+FFFD is)",
 			"evaluation is compared on tokens that are member names, canonical array indices, or tokens strconv.Atoi rejects / reads as negative; non-canonical numerals (01, +1, -0) against lists are outside the property and not generated",
 			"no member name ends in an index group [n] (dom.Child reads it as list access; API invariant, D26)"}})
 	evals["C10"] = c10Eval_
@@ -184,7 +185,12 @@ func c10Enum(n, base int, f func(sym []int)) {
 	}
 }
 
-var c10Runes = []rune{'/', '~', '0', '1', '2', '9', 'a', 'b', 'Z', 'é', '𝄞', '€', ' ', '"', '\\', '-', '+', '.', '[', ']', ' ', '\t'}
+var c10Runes = []rune{'/', '~', '0', '1', '2', '9', 'a', 'b', 'Z', 'é', '𝄞', '€', ' ', '"', '\\', '-', '+', '.', '[', ']', '\u00a0', '\t',
+	// "whatever characters they contain": line breaks, characters that are syntax elsewhere, supplementary-plane
+	// characters, the first / last code points of the UTF-8 length classes, U+FFFD (the replacement character is a
+	// character like any other when it is well-formed input), control characters, a combining mark, BOM
+	'\n', '\r', '{', '}', '(', ')', '=', ':', '#', '!', '%', '?', '&', '\'', '*', 'A', 'ß',
+	'\U0001F680', '\U0001D6FC', '\ufffd', '\ufffe', '\uffff', '\U0010FFFF', '\u007f', '\u0080', '\u07ff', '\u0800', '\U00010000', '\x00', '\x01', '\u0301', '\u2028', '\ufeff'}
 
 func c10RandTok(r *rand.Rand) string {
 	n := r.Intn(6)
@@ -204,7 +210,7 @@ func c10RandTok(r *rand.Rand) string {
 
 func c10EvalGen() *DocGen {
 	g := stdGen()
-	g.Keys = []string{"a", "b", "k1", "x-y", "0", "1", "10", "a/b", "~", "é", "m~n"}
+	g.Keys = []string{"a", "b", "k1", "x-y", "0", "1", "10", "a/b", "~", "é", "m~n", "\ufffd", "A", " a", "a ", "\U0001F680", "18446744073709551616"}
 	g.MaxDepth = 4
 	g.PList = 0.5
 	return g
@@ -236,6 +242,11 @@ func c10GenPointer(r *rand.Rand, g *DocGen, doc W) []string {
 	var locs [][]string
 	c10Locations(doc, nil, &locs)
 	far := []string{"5", "8", "17", "100", "4294967296", "9223372036854775807"}
+	if r.Intn(2) == 0 {
+		// canonical numerals far beyond every list: the powers at which fixed-width integers wrap around (and 10^k,
+		// written with the digits 1 and 0 only), and their neighbours
+		far = c10WrapNumerals
+	}
 	mutLast := func(p []string) []string {
 		p = append([]string{}, p...)
 		if len(p) == 0 {
@@ -290,6 +301,20 @@ func c10GenPointer(r *rand.Rand, g *DocGen, doc W) []string {
 		return mutLast(mutLast(p))
 	}
 }
+
+// c10WrapNumerals: B-1, B, B+1, B+2, B+3 for B = 2^31, 2^32, 2^63, 2^64, 2^65, 3*2^64, 2^128, 10^19, 10^20, 10^64.
+var c10WrapNumerals = func() []string {
+	var out []string
+	pow := func(b, e int64) *big.Int { return new(big.Int).Exp(big.NewInt(b), big.NewInt(e), nil) }
+	bases := []*big.Int{pow(2, 31), pow(2, 32), pow(2, 63), pow(2, 64), pow(2, 65), new(big.Int).Mul(big.NewInt(3), pow(2, 64)), pow(2, 128),
+		pow(10, 19), pow(10, 20), pow(10, 64)}
+	for _, b := range bases {
+		for d := int64(-1); d <= 3; d++ {
+			out = append(out, new(big.Int).Add(b, big.NewInt(d)).String())
+		}
+	}
+	return out
+}()
 
 func c10Run(c *Ctx) {
 	r := c.Rng
@@ -613,6 +638,18 @@ func c10Eval_(c *Ctx, kind string, raw []byte) {
 				same = sameObj(keep[i], tr2[i])
 			}
 			c.Direct("eval-twice-same-nodes", same, map[string]any{"first": trail, "second_len": len(tr2)})
+			// equivalent entry point: the pointer written as a string and parsed again (round trip clause) addresses the same node
+			ptxt := c10PathOf(k.P).String()
+			pp, perr := patch.ParsePath(ptxt)
+			sameP := perr == nil
+			if sameP {
+				tr4, n4 := pp.Eval(d)
+				sameP = sameObj(n4, n) && len(tr4) == len(keep)
+				for i := 0; sameP && i < len(keep); i++ {
+					sameP = sameObj(keep[i], tr4[i])
+				}
+			}
+			c.Direct("eval-of-parsed-string-same-nodes", sameP, map[string]any{"string": ptxt, "parsed": c10OptToks(pp, perr), "first": trail})
 			// the same content built so that structurally equal subtrees are ONE node object (a block attached at several
 			// positions): evaluation is about positions, the result is the same
 			dd := heapBuildDag(k.Doc, map[string]dom.Node{}).(dom.Container)
